@@ -16,16 +16,16 @@ theorem foldl_congr_mem {α β} (f g : β → α → β) (l : List α) (b : β)
     rw [h x (by simp) b]
     exact ih _ (fun y hy => h y (by simp [hy]))
 
-theorem iiStep_congr (ds ds' : DataSource) (enc : Enc) (split : Bool) (d : Option Nat) (st : IIState) (s : Seg)
-    (h : ds.cls s.cp = ds'.cls s.cp) : iiStep ds enc split d st s = iiStep ds' enc split d st s := by
+theorem iiStep_congr (ds ds' : DataSource) (T : Text) (split : Bool) (d : Option Nat) (st : IIState) (s : Seg)
+    (h : ds.cls s.cp = ds'.cls s.cp) : iiStep ds T split d st s = iiStep ds' T split d st s := by
   unfold iiStep
   rw [h]
 
 theorem cii_congr (ds ds' : DataSource) (t : Text) (d : Option Nat) (split : Bool)
     (h : ∀ s ∈ t.segs, ds.cls s.cp = ds'.cls s.cp) :
     computeInitialInfo ds t d split = computeInitialInfo ds' t d split := by
-  have e : ∀ st0, t.segs.foldl (iiStep ds t.enc split d) st0 = t.segs.foldl (iiStep ds' t.enc split d) st0 :=
-    fun st0 => foldl_congr_mem _ _ t.segs st0 (fun s hs st => iiStep_congr ds ds' t.enc split d st s (h s hs))
+  have e : ∀ st0, t.segs.foldl (iiStep ds t split d) st0 = t.segs.foldl (iiStep ds' t split d) st0 :=
+    fun st0 => foldl_congr_mem _ _ t.segs st0 (fun s hs st => iiStep_congr ds ds' t split d st s (h s hs))
   unfold computeInitialInfo
   simp only [e]
 
